@@ -46,9 +46,11 @@ func (s *Session) ExecQuery(q string) error {
 		fmt.Printf("created database %s\n\r", stmt.Name)
 		return nil
 	case sql.UseStatement:
-		if s.RelationService != nil && strings.EqualFold(s.CurDB, stmt.DBName) {
+		if s.RelationService != nil && strings.ToLower(s.CurDB) == strings.ToLower(stmt.DBName) {
 			// already selected. opening the data file a second time would
 			// read a stale header and work on a second, diverging page cache.
+			// (same spelling rule as the directory name: strings.ToLower, not
+			// case folding - the two disagree on a few letters.)
 			fmt.Printf("selected database %s\n\r", stmt.DBName)
 			return nil
 		}
